@@ -27,6 +27,8 @@ class Opts(object):
         self.repeat_elements = True
         self.p_unclosed = (1, 8)        # probability that a top-level operator scope is left open to the end of the template
         self.bitmap_in_rep = True       # a self-contained block (elements, 22X000 + bitmap + values, 235000) as a replication body
+        self.defs_in_rep = False        # 203YYY definitions inside a replication: legal, but outside the domain of template compilation
+                                        # (C08) -- switched on by the checks that use interpreting coders only (C01, C02)
         self.__dict__.update(kw)
 
 
@@ -359,7 +361,7 @@ def g_203(ch, pool, ctx, opts, depth):
         out = [203000 + y] + defs + [203255] + [op] + use[:k] + [cancel] + use[k:]
     elif form == 'def_under_op':
         out = [op, 203000 + y] + defs + [203255, cancel] + use
-    elif not lead and opts.delayed and ch.bool(1, 4):
+    elif not lead and opts.delayed and opts.defs_in_rep and ch.bool(1, 4):
         # the definitions stand inside a replication: its class 31 factor is a count as always, the element(s) are defined
         # once per repetition (the last one stays), not at all when it runs zero times
         _reserve(ctx, 2)
